@@ -15,6 +15,10 @@
 (* synchronized{}.  Blocking operations wait for their condition and the     *)
 (* poll timeouts (CYCLE_MAXIMUM) are deliberately absent: progress must come *)
 (* from the event / pinger wake-ups alone.                                   *)
+(* A handed-over function may FAIL (raise) when it runs; for the hand-off    *)
+(* that is a function that has run, so the model has no separate notion of   *)
+(* it - the harness makes the first function of every foreign thread fail,   *)
+(* and every other one must still run exactly once.                          *)
 EXTENDS Naturals, Sequences, FiniteSets, TLC
 
 CONSTANTS Foreign,     \* set of foreign thread names, e.g. {"F1","F2"}
